@@ -45,7 +45,9 @@ func (c *chunkReader) Read(p []byte) (int, error) {
 	return n, nil
 }
 
-var readerModes = []string{"buffer", "onebyte", "half", "data+eof", "random", "chunk1000", "chunk1024", "chunk1025", "zero-reads"}
+var readerModes = []string{"buffer", "onebyte", "half", "data+eof", "random", "chunk1000", "chunk1024", "chunk1025", "zero-reads", "reused-buffer"}
+
+var sendBuffer bytes.Buffer
 
 // zeroReader returns (0, nil) before some of its reads: "nothing happened", which io.Reader allows and an io.Pipe
 // produces when its writer makes an empty Write
@@ -99,6 +101,11 @@ func reader(mode string, p []byte, rnd *rand.Rand) io.Reader {
 		return &chunkReader{b: append([]byte(nil), p...), next: func(int) int { return 1025 }}
 	case "zero-reads":
 		return &zeroReader{b: append([]byte(nil), p...), rnd: rnd}
+	case "reused-buffer":
+		// one *bytes.Buffer per process, as a sender that keeps its send buffer does: whatever an earlier Encrypt left
+		// unread in it goes out in front of the next message
+		sendBuffer.Write(p)
+		return &sendBuffer
 	}
 	panic(mode)
 }
